@@ -9,6 +9,8 @@
   matcher session carry the suffix `_partial` for that reason. Context cancellation / retrieval errors are outside the model.
 -/
 import Aqv.Lemmas.LogFilterQuery
+import Aqv.Lemmas.LogFilterCompress
+import Aqv.Lemmas.LogFilterIndexer
 import Aqv.Gen.Bloom
 namespace Aqv.Props.C16
 open Aqv Aqv.LogFilter
@@ -222,6 +224,83 @@ theorem constants_agree :
 theorem deployed_section_sizes_accepted :
     (Gen.Bloom.bloomBitsBlocks % 8 = 0 ∧ 2048 ≤ Gen.Bloom.bloomBitsBlocks) ∧
     (Gen.Bloom.bloomBitsBlocksClient % 8 = 0 ∧ 2048 ≤ Gen.Bloom.bloomBitsBlocksClient) := by decide
+
+/-! ## 2b. the index as stored: compression round trip, section commit -/
+
+/-- `DecompressBytes(CompressBytes(v), len v) = v` for EVERY byte vector (bitset encoding with recursion on the bitset, and the raw
+    fallback: the encoding is kept only when strictly shorter, because the decoder takes an input of exactly `target` bytes as raw). -/
+theorem decompress_compress (v : Bytes) : decompressBytes (compressBytes v) v.length = .ok v :=
+  decompress_compress_all v
+
+/-- the break-even clause by name: a vector whose encoding is exactly as long as the vector is stored raw. -/
+theorem compress_raw_at_break_even (v : Bytes) (h : (bitsetEncodeBytes v).length = v.length) : compressBytes v = v := by
+  unfold compressBytes
+  simp [h]
+
+-- non-vacuity: a 16-byte vector with 13 non-zero bytes in both 8-byte groups encodes to 13 + 2 + 1 = 16 bytes.
+example : (bitsetEncodeBytes [1, 1, 1, 1, 1, 1, 1, 0, 1, 1, 1, 1, 1, 1, 0, 0]).length = 16 := by decide
+
+/-- Every vector of the committed index survives storage: what `startBloomHandlers` hands to the matcher
+    (`DecompressBytes(CompressBytes(bits), size/8)`) is the vector the generator produced. -/
+theorem stored_vectors_roundtrip (size sections : Nat) (h8 : size % 8 = 0) (h2048 : 2048 ≤ size) (blooms : List Bytes)
+    (hidx : sections * size ≤ blooms.length) :
+    ∃ index, buildIndex size blooms sections = .ok index ∧
+      ∀ s, s < sections → ∀ i, i < 2048 → storedVec size (indexVec index s i) = .ok (indexVec index s i) := by
+  obtain ⟨index, hb, _, hsec⟩ := buildIndex_spec size h8 h2048 blooms sections hidx
+  refine ⟨index, hb, fun s hs i hi => ?_⟩
+  have e1 : (s + 1) * size = s * size + size := by rw [Nat.add_mul, Nat.one_mul]
+  have hbound : (s + 1) * size ≤ sections * size := Nat.mul_le_mul_right _ (by omega)
+  have hl : ((blooms.drop (s * size)).take size).length = size := by
+    rw [List.length_take, List.length_drop]; omega
+  obtain ⟨vs, hgen, _, hspec⟩ := generateSection_spec size h8 h2048 _ hl
+  rw [hsec s hs] at hgen
+  cases hgen
+  have hlen : (indexVec index s i).length = size / 8 := (hspec i hi).1
+  unfold storedVec
+  rw [← hlen]
+  exact decompress_compress_all _
+
+example : (2 : Nat) * 2048 ≤ (List.replicate 5000 ([] : Bytes)).length := by
+  rw [List.length_replicate]; decide
+
+/-- `section_commit_requires_contiguous_headers`: if `processSection` commits, the headers it walked form a parent-linked run
+    starting after the previous section head, the returned section head is the hash of the last header walked, and the committed
+    bits are the generator's transposition of exactly those headers' blooms. If moreover the canonical section at commit time
+    (`canon`: parent-linked, same length) ends in that same head — the key under which the vectors are stored and served — and
+    equal hashes mean equal headers, then the walked headers ARE the canonical ones: the section describes the canonical chain. -/
+theorem section_commit_requires_contiguous_headers (size lastHead : Nat) (walk : List Hdr) (newHead : Nat) (vs : List Bytes)
+    (h : processSection size lastHead walk = .ok (newHead, vs)) :
+    (Linked lastHead walk ∧ newHead = runHead lastHead walk ∧ generateSection size (walk.map (·.bloom)) = .ok vs) ∧
+    ∀ (canon : List Hdr) (lastCanon : Nat), canon.length = walk.length → walk ≠ [] → Linked lastCanon canon →
+      runHead lastCanon canon = newHead → (∀ x ∈ walk, ∀ y ∈ canon, x.hash = y.hash → x = y) →
+      walk = canon ∧ generateSection size (canon.map (·.bloom)) = .ok vs := by
+  unfold processSection at h
+  cases hw : walkSection lastHead walk with
+  | error e => rw [hw] at h; cases h
+  | ok nh =>
+    rw [hw] at h
+    simp only at h
+    cases hg : generateSection size (walk.map (·.bloom)) with
+    | error e => rw [hg] at h; cases h
+    | ok vs' =>
+      rw [hg] at h
+      simp only [Except.ok.injEq, Prod.mk.injEq] at h
+      obtain ⟨h1, h2⟩ := h
+      subst h1 h2
+      obtain ⟨hl, hh⟩ := walkSection_ok lastHead walk nh hw
+      refine ⟨⟨hl, hh, rfl⟩, ?_⟩
+      intro canon lastCanon hlen hne hlc hhead hinj
+      have := linked_unique walk canon lastHead lastCanon hlen.symm hl hlc hne (by rw [← hh, hhead]) hinj
+      subst this
+      exact ⟨rfl, hg⟩
+
+/-- conversely a parent-linked walk is never refused by the continuity check (the commit then only depends on the generator). -/
+theorem linked_walk_accepted (lastHead : Nat) (walk : List Hdr) (h : Linked lastHead walk) :
+    walkSection lastHead walk = .ok (runHead lastHead walk) := walkSection_of_linked lastHead walk h
+
+-- non-vacuity: a mixed walk (second header from another fork: its parent is not the first header) is refused, a linked one passes.
+example : walkSection 0 [⟨1, 0, []⟩, ⟨22, 11, []⟩] = .error .reorged := rfl
+example : Linked 0 [⟨1, 0, []⟩, ⟨2, 1, []⟩] := ⟨rfl, rfl, trivial⟩
 
 /-! ## 3. log queries are exact -/
 
